@@ -207,6 +207,10 @@ class Flow:
         evar = {e: f"e{i}" for i, e in enumerate(es)}
         decls += [f"(declare-const {v} Bool)" for v in evar.values()]
         asserts = [f"on_{start}"] + [f"(= {cv(c, start)} {self.init.get(c, 0)})" for c in cells if c.startswith("@")]
+        if start == "bb0":  # an argument that is re-assigned later is a cell: it starts as the argument's value
+            for a_, _t in fn.args:
+                if a_ in cells:
+                    asserts.append(f"(= {cv(a_, start)} {self.fresh('arg' + a_, 'argument ' + a_)})")
         exit_env, edge_cond = {}, {}
         for b in order:
             blk = fn.blocks[b]
